@@ -45,6 +45,21 @@ Theorem C18_v_decodable : forall st t,
 Proof. exact v_decodable_model. Qed.
 Print Assumptions C18_v_decodable.
 
+(* also from the printed text alone (print_tree's lines): every line is cut into cells of the
+   style's width until the connector is met.  Guards: one length for the three strings; positive
+   width and a connector that differs from the stem and from the blank cell (`vstyle_distinct`;
+   true for the six built-in styles, see C18_v_builtin_styles_distinct) *)
+Theorem C18_v_text_decodable : forall st,
+  vstyle_ok st = true -> vstyle_distinct st = true ->
+  forall t, v_text_decodable st t (print_lines st t) = true.
+Proof. exact v_text_decodable_model. Qed.
+Print Assumptions C18_v_text_decodable.
+
+Example C18_v_builtin_styles_distinct :
+  forallb (fun st => vstyle_ok st && vstyle_distinct st)
+          [vs_ansi; vs_ascii; vs_const; vs_const_bold; vs_rounded; vs_double] = true.
+Proof. vm_compute. reflexivity. Qed.
+
 (* the call as a whole: start at an inner node, max_depth, style check, empty slots skipped *)
 Theorem C18_v_call : forall st t start md out,
   yield_tree st t start md = Ret out ->
@@ -69,6 +84,11 @@ Definition k2_witness : tree :=
 Definition k5_witness : tree := Nd [97; 58; 98] [Nd [99] []; Nd [97; 58; 99] []].
 Definition k4_witness : tree := Nd [120] [].
 Definition slash : str := [47].
+Definition ex_tree_h : tree :=
+  Nd [114] [Nd [97; 97; 97] [Nd [112] []; Nd [113] []];
+            Nd [98] [Nd [99; 99; 99; 99; 99] [Nd [100] []]; Hole];
+            Nd [101] [];
+            Nd [102; 102] [Nd [103] []; Nd [104] [Nd [105] []; Nd [106] []]; Nd [107] []]].
 Local Close Scope N_scope.
 
 (* non-vacuity: a tree of depth 5 with fan-out 3, closed branches above deeper nodes, started at an
@@ -79,12 +99,63 @@ Example C18_v_call_witness :
 Proof. eexists. split; [vm_compute; reflexivity|]. repeat split. discriminate. Qed.
 
 (* ---------------------------------------------------------------------------------------------- *)
+(* horizontal rendering (every style of seven one-character icons, intermediate names on or off) *)
+
+(* number of rows: 1 for a leaf or an empty slot, the sum over the children for an inner node, plus one
+   separating row exactly when it has two children of one row each (`hrows`); and the code's
+   `assert len(result) == 2` can never fire (hyield_rows returns, it does not raise) *)
+Theorem C18_h_rows : forall st inter t,
+  exists rows, hyield_rows st inter t = Ret rows /\ h_rows t rows = true.
+Proof. exact hyield_rows_spec. Qed.
+Print Assumptions C18_h_rows.
+
+(* for every block: the branch row lies inside the block and touches its first or last row only
+   when the block has a single row — each parent sits strictly inside its children's span *)
+Theorem C18_h_branch_row_inside : forall st inter ws t d,
+  blk_good (hbranch st inter ws d t) /\ blk_rows (hbranch st inter ws d t) = hrows t.
+Proof. intros st inter ws t d. apply hbranch_good. Qed.
+Print Assumptions C18_h_branch_row_inside.
+
+(* every row is some prefix followed by the cell of one leaf (or empty slot); read top to bottom the
+   cells are those of the leaves in pre-order; the only rows without a leaf are the separating rows.
+   (Model-level form of the clause; the boolean h_leaf_order, which first cuts the rows into column
+   bands, is evaluated on every output.) *)
+Theorem C18_h_leaf_order : forall st inter t,
+  exists rows P, hyield_rows st inter t = Ret rows
+    /\ rows = zip_with (@app N) P (hsuffixes st (padding_depths inter t) 1 t)
+    /\ length rows = length (hsuffixes st (padding_depths inter t) 1 t)
+    /\ filter nonempty (hsuffixes st (padding_depths inter t) 1 t)
+       = hleaf_cells st (padding_depths inter t) 1 t.
+Proof. exact hyield_leaf_order. Qed.
+Print Assumptions C18_h_leaf_order.
+
+(* the whole horizontal clause (bands, icons, connectors, decoding) on concrete inputs: a tree with
+   fan-out 4, names of different lengths, a binary node with an empty slot, two single-row children *)
+Example C18_h_witness :
+  exists rows, hyield_tree (Some hs_const) true ex_tree_h [] 0 = Ret rows
+               /\ length rows = 12 /\ prop_C18_h (glyphs_of hs_const) true ex_tree_h rows = true
+               /\ prop_C18_h (glyphs_of hs_ascii) false ex_tree_h
+                     (match hyield_tree (Some hs_ascii) false ex_tree_h [] 0 with Ret r => r | _ => [] end) = true.
+Proof. eexists. split; [vm_compute; reflexivity|]. vm_compute. repeat split. Qed.
+
+(* ---------------------------------------------------------------------------------------------- *)
 (* mermaid *)
 
 (* the vertex names 0, 0-i, 0-i-j, ... are pairwise different, for every tree *)
 Theorem C18_mermaid_ids_injective : forall t, graph_ids_distinct (mermaid_nodes t) = true.
 Proof. exact mermaid_ids_distinct. Qed.
 Print Assumptions C18_mermaid_ids_injective.
+
+(* exactly one vertex per node with the node's name as label and exactly one edge per parent-child
+   link between the right names.  Guard: at least two (existing) nodes — see K4 below *)
+Theorem C18_mermaid_graph_partial : forall t,
+  2 <= tsize (compact t) -> prop_C18_g t (mermaid_nodes t) (mermaid_edges t) = true.
+Proof. exact mermaid_graph_exact. Qed.
+Print Assumptions C18_mermaid_graph_partial.
+
+Example C18_mermaid_graph_witness :
+  2 <= tsize (compact ex_tree_h) /\ length (mermaid_lines ex_tree_h) = 13.
+Proof. vm_compute. split; [|reflexivity]. repeat constructor. Qed.
 
 (* K4: for a one-node tree no flow line and hence no vertex is emitted *)
 Example C18_mermaid_single_node_refuted :
